@@ -335,7 +335,7 @@ def rule_g(ctx: Ctx) -> None:
             target = par.targets[0].id if isinstance(par, ast.Assign) and len(par.targets) == 1 and isinstance(par.targets[0], ast.Name) else None
             fresh_inline = isinstance(a, ast.Call) and (call_name(a) or "").split(".")[-1] in ("parse_identifier", "to_identifier")
             var = a.id if isinstance(a, ast.Name) else None
-            if not ((var in installed) or (target in installed and (fresh_inline or var == target))):
+            if not ((var in installed) or (target in installed and (fresh_inline or var is not None))):
                 continue
             n += 1
             inst = f"{f.key}|{norm(c, 70)}"
